@@ -182,3 +182,19 @@ Example C07_core_monitor_accepts_handler_trace :                  (* the refutin
   /\ map snd (srv_run cfg_v_handlers (srv_init cfg_v_handlers) [OpIn O [22; 3; 0; 0; 0; 1] 23; OpVal O; OpIn O [24; 1] 23; OpVal O])
      = [OBytes [23; 3; 0; 0; 0; 1]; OValue [1; 12; 23; 34; 45; 56; 67; 78] (Some (0, 1, 1)); OBytes [25]; OValue [1; 12; 23; 34; 45; 56; 67; 78] (Some (0, 2, 1))].
 Proof. split; vm_compute; reflexivity. Qed.
+
+(* 16 bit fields at full width: cfg_v_long, handle 5 = a 600 byte value (characteristic 1). A prepared write at offset
+   0x012C = 300 lands at byte 300 (the model keeps offsets in N); the monitor rejects a trace in which it landed at
+   300 mod 256 = 44 (a seeded regression read the queued offset into a std::uint8_t) *)
+Example C07_offsets_above_255 :
+  (let r := map snd (srv_run cfg_v_long (srv_init cfg_v_long) [OpIn O [22; 5; 0; 44; 1; 170; 187] 23; OpIn O [24; 1] 300; OpVal 1]) in
+   match r with
+   | [OBytes [23; 5; 0; 44; 1; 170; 187]; OBytes [25]; OValue v None] =>
+       nth 300 v 0 = 170 /\ nth 301 v 0 = 187 /\ nth 44 v 0 = init_byte 1 44 /\ length v = 600%nat
+   | _ => False
+   end)
+  /\ monitor cfg_v_long [(OpIn O [22; 5; 0; 44; 1; 170; 187] 23, OBytes [23; 5; 0; 44; 1; 170; 187]); (OpIn O [24; 1] 300, OBytes [25]);
+                         (OpVal 1, OValue (firstn 44 (init_val 1 (mkChar (U16 0) HNone (VBind 600 false) false false false false false false None [] enc_none))
+                                             ++ [170; 187] ++ skipn 46 (init_val 1 (mkChar (U16 0) HNone (VBind 600 false) false false false false false false None [] enc_none))) None)]
+     = Some (2%nat, t_execute_order).
+Proof. split; vm_compute; [repeat split; reflexivity|reflexivity]. Qed.
